@@ -608,7 +608,8 @@ fn run_polys(ctx: &Ctx) {
         }
     }
     let poses: Vec<(f32, f32, [f32; 3])> = TILTS.iter().flat_map(|t| AZS.iter().flat_map(move |a| POSS.iter().map(move |p| (*t, *a, *p)))).collect();
-    let local_dirs: [[f64; 3]; 3] = [[0.0, 0.0, 1.0], [0.3, 0.2, 1.0], [-0.5, 0.4, 0.7]];
+    // (the last one grazes the plane: 0.3 degrees, cosine with the normal 0.0054 - far above the parallel guard of 1e-5)
+    let local_dirs: [[f64; 3]; 4] = [[0.0, 0.0, 1.0], [0.3, 0.2, 1.0], [-0.5, 0.4, 0.7], [1.0, 0.5, 0.006]];
     let np = polys.len() as u64;
     #[derive(Default)]
     struct Acc {
@@ -861,7 +862,7 @@ pub fn run(ctx: &Ctx) -> i32 {
     run_reveals(ctx);
     ctx.finish(
         "model_checking",
-        "(a) BVH: all sequences of length 0..L over an 8-box alphabet on the {0..3}^3 grid (flat, point, two boxes with identical centres; L=4 quick / 5 thorough) x leaf size {1,2,3,30} x 88 rays (incl. directions with -0.0 components), n copies of one element, collinear centres, centres coinciding on the split axis (also at values that are not binary fractions: 4.05, 0.1, 0.7, 1e-3, 123456.7, -2.3), prefixes of a 216-box lattice, 20 / 40 / 74 boxes whose centres grow geometrically (ratio 10 from 1e-36, ratio 50 from 1e-30: a tree as deep as the set is large) with one ray through each box, shade sets through BVH<&Occluder>; each build runs in a supervised worker process (watchdog, 4 GiB) and BVH.intersects(r).is_some() is compared with testing every obstacle; AABB::intersects itself against an f64 slab test for 48 boxes x 88 rays, and BVH over plain polygons (no box pre-check on the element side) against the one-by-one polygon test; 2..40 complementary triangles of one rectangle (identical boxes, different polygons, all centres coinciding) x leaf size {1,2,30} x an 80-ray grid over the rectangle; (b) all simple polygons (general position) with 3..4 vertices on the 4x4 grid (+5-gons 4x4 and 6-gons 3x3 in thorough, 5-gons 3x3 in quick; + three outlines with a corner in the middle of a side, listed from every corner in both senses) x poses (tilt{0,30,90,135,180} x az{0,45,90,-120,180} x 2 positions) x 64 quarter-lattice targets x 3 directions x {front-towards, front-away, behind-towards, parallel} against exact integer point-in-polygon (targets on the outline skipped) + AABB containment; (c) reveal quads for setback{.05,.2,1} x 3 window rects x 6 tilts x 5 azimuths x 2 positions against the wall's own transform, the first window also with the wall outline shifted in its plane and listed from its third corner; a set-back window listed after a window that cannot have reveals; non-trivial = non-empty obstacle set / polygon with at least one expected hit / 4 reveal quads generated",
+        "(a) BVH: all sequences of length 0..L over an 8-box alphabet on the {0..3}^3 grid (flat, point, two boxes with identical centres; L=4 quick / 5 thorough) x leaf size {1,2,3,30} x 88 rays (incl. directions with -0.0 components), n copies of one element, collinear centres, centres coinciding on the split axis (also at values that are not binary fractions: 4.05, 0.1, 0.7, 1e-3, 123456.7, -2.3), prefixes of a 216-box lattice, 20 / 40 / 74 boxes whose centres grow geometrically (ratio 10 from 1e-36, ratio 50 from 1e-30: a tree as deep as the set is large) with one ray through each box, shade sets through BVH<&Occluder>; each build runs in a supervised worker process (watchdog, 4 GiB) and BVH.intersects(r).is_some() is compared with testing every obstacle; AABB::intersects itself against an f64 slab test for 48 boxes x 88 rays, and BVH over plain polygons (no box pre-check on the element side) against the one-by-one polygon test; 2..40 complementary triangles of one rectangle (identical boxes, different polygons, all centres coinciding) x leaf size {1,2,30} x an 80-ray grid over the rectangle; (b) all simple polygons (general position) with 3..4 vertices on the 4x4 grid (+5-gons 4x4 and 6-gons 3x3 in thorough, 5-gons 3x3 in quick; + three outlines with a corner in the middle of a side, listed from every corner in both senses) x poses (tilt{0,30,90,135,180} x az{0,45,90,-120,180} x 2 positions) x 64 quarter-lattice targets x 4 directions (one grazing the plane at 0.3 degrees) x {front-towards, front-away, behind-towards, parallel} against exact integer point-in-polygon (targets on the outline skipped) + AABB containment; (c) reveal quads for setback{.05,.2,1} x 3 window rects x 6 tilts x 5 azimuths x 2 positions against the wall's own transform, the first window also with the wall outline shifted in its plane and listed from its third corner; a set-back window listed after a window that cannot have reveals; non-trivial = non-empty obstacle set / polygon with at least one expected hit / 4 reveal quads generated",
         true,
         json!({}),
     )
